@@ -17,7 +17,7 @@ func secretScalar(name string) *scalar.Scalar {
 
 // constant-time table lookups with a secret digit: the real masked scan (generic implementation)
 //
-//verif:ob prop=C08 name=ct_table_lookups mode=bv tags=purego ct=1 use=pt
+//verif:ob prop=C08,C18 name=ct_table_lookups mode=bv tags=purego ct=1 use=pt sharedro=1
 func vh_C08_lookup() {
 	verif.Secret("x")
 	P := genPoint("P", 0)
@@ -29,7 +29,7 @@ func vh_C08_lookup() {
 	_ = t2.Lookup(x)
 }
 
-//verif:ob prop=C08 name=ct_variable_base_and_basepoint_mul mode=bv tags=purego ct=1 use=pt
+//verif:ob prop=C08,C18 name=ct_variable_base_and_basepoint_mul mode=bv tags=purego ct=1 use=pt sharedro=1
 func vh_C08_mul() {
 	s := secretScalar("s")
 	P := genPoint("P", 0)
@@ -38,7 +38,7 @@ func vh_C08_mul() {
 	ED25519_BASEPOINT_TABLE.inner.Mul(&out, s)
 }
 
-//verif:ob prop=C08 name=ct_montgomery_ladder mode=bv tags=purego ct=1 use=ladderabs,field.fa_SetBytes maxunroll=300
+//verif:ob prop=C08,C18 name=ct_montgomery_ladder mode=bv tags=purego ct=1 use=ladderabs,field.fa_SetBytes maxunroll=300 sharedro=1
 func vh_C08_ladder() {
 	s := secretScalar("s")
 	var u, out MontgomeryPoint
@@ -46,7 +46,7 @@ func vh_C08_ladder() {
 	out.Mul(&u, s)
 }
 
-//verif:ob prop=C08 name=ct_straus_constant_time mode=bv tags=purego ct=1 use=pt split=n:1..2
+//verif:ob prop=C08,C18 name=ct_straus_constant_time mode=bv tags=purego ct=1 use=pt split=n:1..2 sharedro=1
 func vh_C08_straus() {
 	n := verif.Case("n")
 	var scalars []*scalar.Scalar
